@@ -239,6 +239,7 @@ func init() {
 		Units: []Unit{
 			{Name: "mutation", QShards: 6, TShards: 12, Run: c11Mutation},
 			{Name: "samlines", QShards: 2, TShards: 6, Run: c11SamLines},
+			{Name: "fields", QShards: 2, TShards: 8, Run: c11Fields},
 			{Name: "fuzz", Thorough: true, Run: c11Fuzz},
 		},
 	})
@@ -381,3 +382,62 @@ func c11SamLines(c *Ctx) {
 }
 
 var _ *rand.Rand
+
+// fieldSoup: replacement values for one field of a tab-separated line.
+var fieldSoup = []string{"", "0", "-0", "+0", "-1", "1", "+7", "00", "-2", "255", "256", "-128", "65536", "2147483648", "-2147483649",
+	"9223372036854775807", "-9223372036854775808", "9223372036854775808", "99999999999999999999999999", "1e3", "1.5", "0x10", "0b1", "1_0", " 1", "1 ", "x",
+	",", ",,", "1,", ",1", "1,2", "1,,2", "1,2,3", "1,2,3,4", "-1,-1", "0,0,0", "256,0,0", "-1,0,0", "0x1,2,3", "+", "-", ".", "++", "*", "@", "#", "\"", ":", "::", "a:b", "XX:i:", "XX:i:-", "XX:A:", "XX:H:0", "XX:f:nan", "XX:f:+inf", "XX:f:1e999", "XX:Z:", "XX:B:c,1"}
+
+// c11Fields replaces each field of valid BED and SAM lines, one at a time, by
+// every value of fieldSoup: no panic, bounded items, accepted records are
+// fixed points (cross-field interactions such as count vs list are hit because
+// the other fields stay valid).
+func c11Fields(c *Ctx) {
+	n := c.N(40, 1500)
+	for i := 0; i < n; i++ {
+		c.Case(int64(i), func(k *K) {
+			r := k.Rand()
+			format := "bed"
+			var line string
+			if i%2 == 0 {
+				b := genBED(r, 3+r.IntN(10))
+				if b.N == 12 && r.IntN(2) == 0 {
+					b.BlockCount, b.BlockSizes, b.BlockStarts = 2, []int{1, 2}, []int{3, 4}
+				}
+				var buf bytes.Buffer
+				b.Write(&buf)
+				line = strings.TrimSuffix(buf.String(), "\n")
+			} else {
+				format = "sam"
+				var buf bytes.Buffer
+				genSAM(r).Write(&buf)
+				line = strings.TrimSuffix(buf.String(), "\n")
+			}
+			fields := strings.Split(line, "\t")
+			k.Input("format", format)
+			k.Input("line", line)
+			for fi := 0; fi <= len(fields); fi++ {
+				for _, v := range fieldSoup {
+					var mod []string
+					if fi == len(fields) {
+						mod = append(append([]string{}, fields...), v) // one more field
+					} else {
+						mod = append([]string{}, fields...)
+						mod[fi] = v
+					}
+					x := []byte(strings.Join(mod, "\t") + "\n")
+					k.Input("field", fi)
+					k.Input("value", v)
+					k.Input("input", x)
+					decodeTotal(k, format, x)
+					k.Evals(1)
+					k.Count("field_replacements", 1)
+					if k.Failed() {
+						return
+					}
+				}
+			}
+			k.Nontrivial([]byte(format), []byte(line))
+		})
+	}
+}
